@@ -316,6 +316,14 @@ func (t *stringType) PType() px.Type {
 	return &TypeType{t}
 }
 
+func (t *scStringType) PType() px.Type {
+	return &TypeType{t}
+}
+
+func (t *vcStringType) PType() px.Type {
+	return &TypeType{t}
+}
+
 func (t *stringType) Value() *string {
 	return nil
 }
